@@ -74,6 +74,7 @@ class KFLWorld(engine.World):
                                    ("seeded", 1)]),
         "scale_init": s.weighted([("default", 8), ("normal", 2)]),
         "init_seed": s.seed31(),
+        "input_style": s.weighted([("tensor", 3), ("list", 1)]),
     }
     # Swarm profile.
     p = rng_lib.Stream(run_seed, "kfl-profile")
@@ -167,7 +168,7 @@ class KFLWorld(engine.World):
           output_max=sp["output_max"],
           clip_inputs=sp["clip_inputs"],
           **kwargs)
-      self.layer(tf.zeros(self._in_shape(1)))
+      self._call(np.zeros(self._in_shape(1), dtype=np.float32))
     self.L = sp["lattice_sizes"]
     self.dims = sp["dims"]
     self.units = sp["units"]
@@ -195,6 +196,15 @@ class KFLWorld(engine.World):
     self.last_con = None
     self.ctx = ctx
     self._log_state(ctx, "construct")
+
+  def _call(self, x):
+    """Evaluates the layer on a batch given as one array."""
+    tf = self.tf
+    x = tf.constant(np.asarray(x, dtype=np.float32))
+    if self.spec.get("input_style") == "list":
+      # List of `dims` tensors of shape (..., 1), as the layer documents.
+      return self.layer([x[..., d:d + 1] for d in range(self.spec["dims"])])
+    return self.layer(x)
 
   def _in_shape(self, n):
     if self.spec["units"] == 1:
@@ -239,7 +249,7 @@ class KFLWorld(engine.World):
     sp = self.spec
     with tf.GradientTape() as tape:
       loss = 0.0
-      y = self.layer(tf.constant(x))
+      y = self._call(x)
       if sp["output_max"] is not None or sp["output_min"] is not None:
         sgn = 1.0
         if sp["output_max"] is None or (sp["output_min"] is not None and
@@ -250,7 +260,7 @@ class KFLWorld(engine.World):
         loss = loss + tf.reduce_sum(y * tf.constant(
             es.normal(size=y.shape).astype(np.float32)))
       for d, pts in lines:
-        yl = self.layer(tf.constant(pts))  # (n_base, n_line, units)
+        yl = self._call(pts)  # (n_base, n_line, units)
         loss = loss + tf.reduce_sum(yl[:, 1:] - yl[:, :-1])
     variables = list(self.vars.values())
     grads = tape.gradient(loss, variables)
@@ -497,9 +507,9 @@ class KFLWorld(engine.World):
     tol_u = 1e-5 * (1.0 + mag)  # per unit
     has_bounds = sp["output_min"] is not None or sp["output_max"] is not None
     with ctx.sut("call"):
-      y = self.layer(tf.constant(x)).numpy().astype(np.float64)
-      ylines = [(d, pts, self.layer(tf.constant(pts)).numpy().astype(
-          np.float64)) for d, pts in lines]
+      y = self._call(x).numpy().astype(np.float64)
+      ylines = [(d, pts, self._call(pts).numpy().astype(np.float64))
+                for d, pts in lines]
     ctx.log("probe", y.astype(np.float32))
     ctx.count("probe_points", int(y.shape[0]) + sum(
         int(np.prod(yl.shape[:2])) for _, _, yl in ylines))
